@@ -4,12 +4,22 @@
    (sp 0, no frames, no closures, no child contexts, ip at the end of the
    code), so the next statement starts from the same machine state as in a
    session that never saw the failing statement, up to the code and data it
-   appended and the globals it had completed.  NOT proved: that code compiled
+   appended and the globals it had completed.  For sessions of simple
+   statements (pure expressions and assignments of pure expressions to
+   globals; ExprSession.v) the property itself is proved on the compiler and
+   VM models: a failing statement changes neither globals nor output and
+   leaves the machine ready ([C08_simple_failure_is_invisible]); where the
+   code and data of a statement land and what the dead part of the stack holds
+   do not matter, two machines with the same globals give the same result
+   ([C08_simple_relocation]); so every later statement of every such history
+   gives what the semantics gives ([C08_simple_sessions]).  NOT proved in
+   general: that code compiled
    at shifted code/data offsets behaves the same ([C08_twin_sessions_statement],
    open); the check decides it by running every history next to its
    failure-free twin on the real code. *)
 Require Import Calc.Base Calc.Bytecode Calc.Value Calc.FloatText Calc.Ast Calc.Resolve Calc.Compile
         Calc.VM Calc.Session Calc.MemProofs Calc.StepErr Calc.StepCode.
+Require Import Calc.ExprSem Calc.ExprVM Calc.ExprCorrect Calc.ExprTop Calc.ExprAssign Calc.ExprLen Calc.ExprSession.
 Open Scope Z_scope.
 
 Definition C08_twin_sessions_statement : Prop :=
@@ -103,3 +113,29 @@ Proof.
   exists vm0, r0, v', vals. split; assumption.
 Qed.
 Print Assumptions C08_run_error_resets.
+
+(* ---- simple statements: the property on the compiler and VM models ---- *)
+Theorem C08_simple_failure_is_invisible : forall t mc c m err rep,
+  ready mc c m -> simple t = true -> small t ->
+  snd (run_tree false mc t) = TError err rep ->
+  v_globals (mc_vm (fst (run_tree false mc t))) = v_globals (mc_vm mc) /\
+  v_out (mc_vm (fst (run_tree false mc t))) = v_out (mc_vm mc) /\
+  exists c' m', ready (fst (run_tree false mc t)) c' m'.
+Proof. exact simple_failure_is_invisible. Qed.
+Print Assumptions C08_simple_failure_is_invisible.
+
+Theorem C08_simple_relocation : forall t mc1 c1 m1 mc2 c2 m2,
+  ready mc1 c1 m1 -> ready mc2 c2 m2 ->
+  v_globals (mc_vm mc1) = v_globals (mc_vm mc2) ->
+  simple t = true -> small t ->
+  snd (run_tree false mc1 t) <> TRefused -> snd (run_tree false mc2 t) <> TRefused ->
+  same_outcome (snd (run_tree false mc1 t)) (snd (run_tree false mc2 t)) /\
+  v_globals (mc_vm (fst (run_tree false mc1 t))) = v_globals (mc_vm (fst (run_tree false mc2 t))).
+Proof. exact simple_relocation. Qed.
+Print Assumptions C08_simple_relocation.
+
+Theorem C08_simple_sessions : forall ts mc c m,
+  ready mc c m -> Forall (fun t => simple t = true /\ small t) ts ->
+  agree_run mc (v_globals (mc_vm mc)) ts.
+Proof. exact simple_session. Qed.
+Print Assumptions C08_simple_sessions.
